@@ -151,6 +151,47 @@ def coq_deps(group):
     return deps
 
 
+# groups whose Coq sources contain files regenerated from /repo (Gen*.v) and the property module whose
+# SPEC carries the translator.  A check that imports such a group regenerates those files first, so that
+# what it builds always reflects the CURRENT tree (never what an earlier run against another tree left).
+GROUP_TRANSLATORS = {
+    "stripe": "props.c04", "score": "props.c01", "maxi": "props.c07", "encode": "props.c05", "pwm": "props.c10",
+}
+
+
+def all_coq_deps(group):
+    seen, stack = [], list(coq_deps(group))
+    while stack:
+        g = stack.pop()
+        if g not in seen:
+            seen.append(g)
+            stack.extend(coq_deps(g))
+    return seen
+
+
+def translate_deps(group):
+    """Run the translators of every group `group` imports (transitively). Returns a list of notes."""
+    import importlib
+    notes = []
+    for g in all_coq_deps(group):
+        modname = GROUP_TRANSLATORS.get(g)
+        if not modname:
+            continue
+        try:
+            mod = importlib.import_module(modname)
+            spec = getattr(mod, "SPEC", None)
+            if spec is None and hasattr(mod, "SPECS"):
+                spec = mod.SPECS[0]
+            tr = spec.get("translate") if spec else None
+            if tr:
+                r = tr()
+                if not r.get("ok", True):
+                    notes.append("translator of imported group %s: %s" % (g, "; ".join(r.get("errors", ["failed"]))))
+        except Exception as e:  # the imported group's own check reports this; here it is only a note
+            notes.append("translator of imported group %s raised %r" % (g, e))
+    return notes
+
+
 def _make_group(group, timeout):
     d = coq_dir(group)
     with Lock("coq-" + group):
